@@ -128,6 +128,32 @@ func genErsWorld(r *rand.Rand, now time.Time) *ersWorld {
 		}
 	}
 	tplA, tplB := tplOf(1), tplOf(2)
+	if r.Intn(5) == 0 {
+		// templates with their own scheduling constraints: node selector, required affinity (labels and
+		// metadata.name fields, In / NotIn / Exists), tolerations, several containers
+		tplA, tplB = genTemplate(r, 1, true), genTemplate(r, 2, true)
+		if r.Intn(3) == 0 {
+			// the template excludes one node BY NAME (matchFields metadata.name NotIn [...]), next to a label
+			// expression: every other node is still served, each pod pinned to its own node
+			ex := pick(r, "n0", "n1", "n4", "n5")
+			for _, t := range []*corev1.PodTemplateSpec{&tplA, &tplB} {
+				t.Spec.Affinity = &corev1.Affinity{NodeAffinity: &corev1.NodeAffinity{RequiredDuringSchedulingIgnoredDuringExecution: &corev1.NodeSelector{
+					NodeSelectorTerms: []corev1.NodeSelectorTerm{{
+						MatchFields: []corev1.NodeSelectorRequirement{{Key: "metadata.name", Operator: corev1.NodeSelectorOpNotIn, Values: []string{ex}}},
+					}}}}}
+			}
+			w.cat = append(w.cat, "template-excludes-node-by-name")
+		}
+		for _, t := range []*corev1.PodTemplateSpec{&tplA, &tplB} {
+			// a required node affinity without any term is rejected by the API server (and cannot be pinned)
+			if a := t.Spec.Affinity; a != nil && a.NodeAffinity != nil && a.NodeAffinity.RequiredDuringSchedulingIgnoredDuringExecution != nil &&
+				len(a.NodeAffinity.RequiredDuringSchedulingIgnoredDuringExecution.NodeSelectorTerms) == 0 {
+				t.Spec.Affinity = nil
+			}
+		}
+		eds.Spec.Template = tplB
+		w.cat = append(w.cat, "rich-templates")
+	}
 	if r.Intn(6) == 0 {
 		// a template pasted from a running pod of another namespace: it carries metadata.namespace and a
 		// generateName (both in the CRD schema; defaulting only clears the name).  Pods are nevertheless
@@ -493,9 +519,19 @@ func streamErsReconcile(r *rand.Rand, i int, tier string) *Case {
 	// one case in ten (fault-free otherwise): the k-th List call of this sync fails (settings, nodes,
 	// pods, the old DaemonSet's pods, canary-label clean-up ...).  A failed read must stop the sync or be
 	// harmless; it must never be replaced by "nothing" (e.g. no settings) in a decision that creates pods.
-	readFault := failAt == nil && !warm && !neighbour && (r.Intn(10) == 0 || (len(w.settings) > 0 && r.Intn(3) == 0) || (w.settingsDirected && r.Intn(2) == 0))
+	parentUnreadable := false
+	readFault := failAt == nil && !neighbour && ((!warm && r.Intn(10) == 0) || (warm && r.Intn(3) == 0) || (!warm && len(w.settings) > 0 && r.Intn(3) == 0) || (!warm && w.settingsDirected && r.Intn(2) == 0))
 	if readFault {
 		lf := &listFaultClient{Client: cl, failAt: r.Intn(5)}
+		if warm || r.Intn(4) == 0 {
+			// the Get of the parent ExtendedDaemonSet (or of the old DaemonSet) fails instead: a process that
+			// has seen the object before must not decide from what it remembers
+			lf.failAt = -1
+			lf.failGet = pick(r, "ExtendedDaemonSet", "ExtendedDaemonSet", "DaemonSet")
+			if lf.failGet == "ExtendedDaemonSet" {
+				parentUnreadable = true
+			}
+		}
 		if r.Intn(2) == 0 || w.settingsDirected { // by kind of list rather than by position
 			lf.failKind = pick(r, "ExtendedDaemonsetSettingList", "ExtendedDaemonsetSettingList", "NodeList", "PodList")
 		}
@@ -505,6 +541,9 @@ func streamErsReconcile(r *rand.Rand, i int, tier string) *Case {
 	if readFault {
 		in["readFault"] = true
 		in["faulted"] = true
+		if parentUnreadable {
+			in["parentUnreadable"] = true
+		}
 	}
 	statusConflict := failAt != nil && failAt[-2] == "conflict"
 	out, nowC := runErsReconcile(rec, cl, wl, testNS, testEDS, target.Name)
